@@ -22,7 +22,10 @@ RULE = (
     "committed call repeated twice more => state unchanged; (c) reference "
     "replay: a fresh object on which only the config assignments, the LAST "
     "committed parse and the operations after it are replayed must equal the "
-    "object that lived through the whole history. Flags compared as "
+    "object that lived through the whole history; (d) after the history, "
+    "PLSSDesc.parse_tracts(), PLSSDesc.tracts.parse_tracts(), Tract.parse() "
+    "on each tract and TractList(tracts).parse_tracts(), all without "
+    "arguments, reproduce the same results. Flags compared as "
     "multisets. Non-trivial: history has >= 2 parses at least one of them "
     "committed. Distinct by (text, initial config, history)."
 )
@@ -35,6 +38,7 @@ REQUIRED_MONITORS = ['contract:PLSSDesc.parse', 'contract:Tract.parse',
                      'contract:PLSSDesc.preprocess',
                      'contract:Tract.preprocess', 'relation:no-commit',
                      'relation:repeat', 'relation:replay',
+                     'relation:entry-points',
                      'tract-relation:replay']
 
 TEXTS = [
@@ -279,6 +283,29 @@ def run_plss(case, ctx, rep, pytrs):
                 f"object given only the state-changing suffix: "
                 f"{first_diff(a, b, DNAMES[:1] + DNAMES[2:])}",
                 dedup='replay')
+            return
+        # Every entry point that re-parses the tracts with unchanged
+        # settings reproduces the same results.
+        ctx.hit('relation:entry-points')
+        d.parse_tracts()
+        s1 = dcmp(d)
+        for label, redo in (
+                ('PLSSDesc.tracts.parse_tracts()',
+                 lambda: d.tracts.parse_tracts()),
+                ('Tract.parse() on each tract',
+                 lambda: [t.parse() for t in d.tracts]),
+                ('TractList(tracts).parse_tracts()',
+                 lambda: pytrs.TractList(list(d.tracts)).parse_tracts())):
+            redo()
+            s2 = dcmp(d)
+            if s2 != s1:
+                ctx.violation(
+                    'reparse-entry-points-differ', case,
+                    f"after PLSSDesc.parse_tracts(), {label} with no "
+                    f"arguments changed the results: "
+                    f"{first_diff(s1, s2, DNAMES[:1] + DNAMES[2:])}",
+                    dedup=label)
+                return
 
 
 def tapply(t, op):
